@@ -15,6 +15,13 @@ def parseWho : String → Who
   | "F" => .foreign
   | _ => .loop
 
+def parseHookOp : String → Option HookOp
+  | "disconnect" => some .disconnect
+  | "stop" => some .stop
+  | "connect" => some .connect
+  | "query" => some .query
+  | _ => none
+
 def showEv : Ev → Option String
   | .sockCreated k => some s!"sock created {k}"
   | .attempt k t => some s!"attempt {k} at {t}"
@@ -24,6 +31,10 @@ def showEv : Ev → Option String
   | .up k => some s!"cb UP {k}"
   | .down k => some s!"cb DOWN {k}"
   | .shutdownWr k => some s!"sys shutdownWr {k}"
+  | .query k seen =>
+    some (match seen with
+      | none => "cb QUERY none"
+      | some j => if j = k then "cb QUERY self" else "cb QUERY other")
   | .retryScheduled i ms t => some s!"# retry {i} {ms} {t}"
   | .abort w => some s!"abort {w}"
   | .uaf w => some s!"uaf {w}"
@@ -86,6 +97,8 @@ def exec (s : St) (ws : List String) : St × List String :=
     | ["destroy", w] => (step c0 (.destroy (parseWho w)), false)
     | ["holdRef"] => (step c0 .holdRef, false)
     | ["dropRef"] => (step c0 .dropRef, false)
+    | ["hook", "up", op] => (match parseHookOp op with | some o => (step c0 (.hookUp o), false) | none => (c0, true))
+    | ["hook", "down", op] => (match parseHookOp op with | some o => (step c0 (.hookDown o), false) | none => (c0, true))
     | ["advance", us] => (step c0 (.advance (us.toNat?.getD 0)), false)
     | ["iter"] => (step c0 (.iter active), false)
     | "script" :: _ => (c0, false)
